@@ -14,8 +14,8 @@
 
 namespace {
 
-enum { OP_SCHED_NOW = 1, OP_SCHED_FUT, OP_CANCEL, OP_SLEEP, OP_YIELD, OP_BEHAV, OP_MAIN_SLEEP };
-enum { B_SCHED_NOW = 1, B_SCHED_FUT, B_SCHED_THEN_CANCEL, B_RESCHED_SELF };
+enum { OP_SCHED_NOW = 1, OP_SCHED_FUT, OP_CANCEL, OP_SLEEP, OP_YIELD, OP_BEHAV, OP_MAIN_SLEEP, OP_EXTRA_REF };
+enum { B_SCHED_NOW = 1, B_SCHED_FUT, B_SCHED_THEN_CANCEL, B_RESCHED_SELF, B_CANCEL_OTHER };
 static const uint64_t FAR = 100000000000000000ull; // 1e17 ns: beyond anything the virtual clock can reach in a run
 
 struct Behav { int action; int64_t arg; int64_t arg2; };
@@ -51,6 +51,7 @@ struct Ctx {
     uint64_t ops_done = 0, invocations = 0, hist = 8;
     int nclients = 0;
     uint32_t client_ref_mask = 0;
+    int extra_refs[4] = {0, 0, 0, 0}; // per thread (0 = main): additional references acquired and not yet released
     int64_t create_fail_err = 0;
 };
 static Ctx *g = nullptr;
@@ -134,6 +135,9 @@ void task_fn(struct aws_task *task, void *arg, enum aws_task_status status) {
             switch (b.action) {
                 case B_SCHED_NOW: if (!o.busy) { sim::probe("scheduled_from_task"); do_schedule(c, o, true, 0); } break;
                 case B_SCHED_FUT: if (!o.busy) { sim::probe("scheduled_from_task"); do_schedule(c, o, false, (int)b.arg2); } break;
+                case B_CANCEL_OTHER: // cancel, from the scheduler thread, a far-future task someone scheduled earlier
+                    if (o.busy && o.far && o.sched_returned && !o.cancel_invoked) { sim::probe("cancel_from_task_function"); do_cancel(c, o); }
+                    break;
                 case B_SCHED_THEN_CANCEL:
                     if (!o.busy) { sim::probe("schedule_then_cancel_from_task"); do_schedule(c, o, false, 7); do_cancel(c, o); }
                     break;
@@ -202,8 +206,17 @@ void client_fn(void *arg) {
             case OP_CANCEL: do_cancel(c, c.tasks[(size_t)op.a % c.tasks.size()]); break;
             case OP_SLEEP: sim::sleep_ns((uint64_t)op.a); break;
             case OP_YIELD: sim::yield(); break;
+            case OP_EXTRA_REF:
+                if (c.client_ref_mask & (1u << ca->idx)) { // only while holding a reference of its own
+                    c.total_refs++;
+                    c.extra_refs[ca->idx]++;
+                    aws_thread_scheduler_acquire(c.ts);
+                    sim::probe("extra_reference_acquired");
+                }
+                break;
         }
     }
+    while (c.extra_refs[ca->idx] > 0) { c.extra_refs[ca->idx]--; do_release(c, "client (extra reference)"); }
     if (c.client_ref_mask & (1u << ca->idx)) do_release(c, "client");
 }
 
@@ -282,8 +295,15 @@ RunInfo run(const sim::Plan &plan) {
                 case OP_CANCEL: do_cancel(c, c.tasks[(size_t)op.a % c.tasks.size()]); break;
                 case OP_SLEEP: case OP_MAIN_SLEEP: sim::sleep_ns((uint64_t)op.a); break;
                 case OP_YIELD: sim::yield(); break;
+                case OP_EXTRA_REF:
+                    c.total_refs++;
+                    c.extra_refs[0]++;
+                    aws_thread_scheduler_acquire(c.ts);
+                    sim::probe("extra_reference_acquired");
+                    break;
             }
         }
+        while (c.extra_refs[0] > 0) { c.extra_refs[0]--; do_release(c, "main (extra reference)"); }
     };
     if (main_release_mode == 1 && all_clients_have_refs) {
         run_main_ops();
@@ -344,7 +364,7 @@ void gen(uint64_t seed, int tier, sim::Plan &p) {
         sim::Op b;
         b.thr = -1; b.kind = OP_BEHAV;
         b.a = r.range(0, nt - 1);
-        b.c = r.range(1, 4);
+        b.c = r.range(1, 5);
         b.d = r.range(0, nt - 1);
         b.b = r.pick(std::vector<int64_t>{0, 1, 2, 3, 4, 7});
         p.ops.push_back(b);
@@ -363,6 +383,7 @@ void gen(uint64_t seed, int tier, sim::Plan &p) {
                 op.b = r.pick(std::vector<int64_t>{0, 1, 2, 3, 3, 4, 5, 6, 7, 7, 7, 9});
                 if (allow_max && r.chance(0.2)) op.b = 8;
             } else if (k < 80) { op.kind = OP_CANCEL; op.a = r.range(0, nt - 1); }
+            else if (k < 83) { op.kind = OP_EXTRA_REF; }
             else if (k < 92) { op.kind = OP_SLEEP; op.a = r.pick(std::vector<int64_t>{1, 1000, 1000000, 1000000000ll, 31000000000ll, 40000000000ll}); }
             else op.kind = OP_YIELD;
             p.ops.push_back(op);
@@ -375,7 +396,7 @@ void gen(uint64_t seed, int tier, sim::Plan &p) {
 std::string op_text(const sim::Op &op) {
     char b[160];
     static const char *dc[] = {"now+0", "now+1ns", "now+1us", "now+1ms", "now+1s", "now+31s", "now+2h", "now+FAR(1e17ns)", "UINT64_MAX-5", "now-1ms"};
-    static const char *ba[] = {"?", "schedule_now", "schedule_future", "schedule_future(FAR) then cancel", "re-schedule itself"};
+    static const char *ba[] = {"?", "schedule_now", "schedule_future", "schedule_future(FAR) then cancel", "re-schedule itself", "cancel (if far-future and pending)"};
     const char *who = op.thr == 0 ? "main" : "client";
     switch (op.kind) {
         case OP_SCHED_NOW: snprintf(b, sizeof b, "%s%d: schedule_now(task %lld)", who, op.thr, (long long)op.a); break;
@@ -383,7 +404,8 @@ std::string op_text(const sim::Op &op) {
         case OP_CANCEL: snprintf(b, sizeof b, "%s%d: cancel(task %lld) [only if far-future and its schedule call has returned]", who, op.thr, (long long)op.a); break;
         case OP_SLEEP: case OP_MAIN_SLEEP: snprintf(b, sizeof b, "%s%d: sleep(%lld ns virtual)", who, op.thr, (long long)op.a); break;
         case OP_YIELD: snprintf(b, sizeof b, "%s%d: yield", who, op.thr); break;
-        case OP_BEHAV: snprintf(b, sizeof b, "behaviour: task %lld when RUN does %s(task %lld, %s)", (long long)op.a, ba[op.c % 5], (long long)op.d, dc[op.b % 10]); break;
+        case OP_EXTRA_REF: snprintf(b, sizeof b, "%s%d: acquire an extra reference (released before its own)", who, op.thr); break;
+        case OP_BEHAV: snprintf(b, sizeof b, "behaviour: task %lld when RUN does %s(task %lld, %s)", (long long)op.a, ba[op.c % 6], (long long)op.d, dc[op.b % 10]); break;
         default: snprintf(b, sizeof b, "?");
     }
     return b;
@@ -394,8 +416,9 @@ std::string op_text(const sim::Op &op) {
 extern const Harness H_C08 = {
     "C08", "thread scheduler delivers each task once, on its own thread, whatever the timing", gen, run, op_text,
     "Plans: 0-3 client threads (+ main) issue schedule_now / schedule_future (now+{0,1ns,1us,1ms,1s,31s,2h,FAR}, past, rarely UINT64_MAX-5) / cancel "
-    "(only far-future tasks whose schedule call returned) / virtual sleeps; task functions may schedule further tasks or schedule-then-cancel "
-    "from the scheduler thread; references held by main and/or clients so the last release comes from either, before or after the scheduler "
+    "(only far-future tasks whose schedule call returned) / virtual sleeps; task functions may schedule further tasks, re-schedule themselves, cancel far-future tasks or "
+    "schedule-then-cancel from the scheduler thread; task objects are re-used once their previous instance is over; extra references are "
+    "acquired and released; references held by main and/or clients so the last release comes from either, before or after the scheduler "
     "thread drained its hand-over queues; faults: preemption at every lock/cond/atomic/clock operation, spurious wake-ups, thread stalls up to "
     "60 s virtual, REALTIME steps, pthread_create failure in the constructor, push_ref failure in the inner scheduler. Distinct = "
     "synchronisation-order fingerprint combined with the invocation history; non-trivial = at least two threads operated on a common sync "
